@@ -21,6 +21,9 @@ MU = {"Netlist": {0: 1}, "Library": {0: 1}, "Definition": {0: 2, 1: 3}, "Port": 
 CONFIGS = {
     "base": dict(per_side=dict(Netlist=1, Library=1, Definition=2, Port=1, Cable=1, Wire=2, Instance=2,
                                InnerPin=2, OuterPin=4)),
+    # the top holds TWO instances of the two-pin cell (a net may then sit on the right pin of the wrong instance)
+    "two-children": dict(per_side=dict(Netlist=1, Library=1, Definition=2, Port=1, Cable=1, Wire=2, Instance=3,
+                                       InnerPin=2, OuterPin=4)),
     # two libraries holding same-shaped cells + a third definition with the instance
     "two-libs": dict(per_side=dict(Netlist=1, Library=2, Definition=3, Port=2, Cable=0, Wire=0, Instance=2,
                                    InnerPin=2, OuterPin=2)),
@@ -196,11 +199,11 @@ def compare_job(scenario, tier, timeout_ms=300000, cube=None):
     from spydrnet.compare.compare_netlists import Comparer
     t0 = time.time()
     name = "C20/Comparer.compare/%s" % scenario
-    cfg = "two-libs" if scenario.endswith("@two-libs") else "base"
+    cfg = scenario.split("@")[1] if "@" in scenario else "base"
     configure(cfg)
     scenario = scenario.split("@")[0]
     u = Universe(LIVE, {}, 2, keys=(".NAME",), atoms=("a", "b", "c"))
-    shA = base_shape() if cfg == "base" else two_libs_shape()
+    shA = two_libs_shape() if cfg == "two-libs" else base_shape(children=2 if cfg == "two-children" else 1)
     sh = mirror_shape(shA)
     if scenario in SHAPE_DIFFS:
         d = SHAPE_DIFFS[scenario]
@@ -237,9 +240,11 @@ def compare_job(scenario, tier, timeout_ms=300000, cube=None):
         A.append(DIFFS[scenario][1](pre))
     A = [B(a) for a in A if a is not True]
     # (no per-call feasibility pruning here: the query functions are called dozens of times)
-    cmp_obj = Local(Comparer, {"ir_orig": Ref(u.gid("Netlist", 0), ("Netlist",)),
-                               "ir_composer": Ref(u.gid("Netlist", 1), ("Netlist",))})
+    cmp_obj = Local(Comparer, {})
     try:
+        # the comparer is built by its real __init__ (whatever per-run state it keeps starts as the code says)
+        call_function(ctx, fr, Comparer.__init__, [cmp_obj, Ref(u.gid("Netlist", 0), ("Netlist",)),
+                                                   Ref(u.gid("Netlist", 1), ("Netlist",))], owner=Comparer)
         call_function(ctx, fr, Comparer.compare, [cmp_obj], owner=Comparer)
     except Unsupported as e:
         return [result(name, INCONCLUSIVE, "E1/symheap", detail="Unsupported: %s" % e, wall_s=time.time() - t0)]
